@@ -1,12 +1,12 @@
-"""C10 -- packet-encryption primitives are lossless and exactly invertible (engines B + A, partially).
+"""C10 -- packet-encryption primitives are lossless and exactly invertible (engines B + A).
 
-Decided: flip_msb (involution, fixes 0 and 128, length, element-local); swap_multiples
-(negative multiple rejected and zero returned before any mutation; mutation only through the
-swap idiom => length and multiset preserved); interleave/deinterleave (length preserved,
-schedule independent of contents; the weave loops are summarised in closed form over a
-symbolic length 2m+rho and the two functions are shown to be total, mutually inverse
-permutations of positions -- c10_weave.py).
-Not decided: swap_multiples is an involution / fixes non-multiples (run-length loop invariant).
+flip_msb: involution, fixes 0 and 128, length, element-local (abstract interpretation, all 256 values).
+swap_multiples: negative multiple rejected and zero returned before any mutation (path rule); the scanning loop is
+executed abstractly for one generic iteration and obligations R0-R5 (c10_runs.py) give: length, multiset and every
+non-multiple kept, involution.
+interleave/deinterleave: length preserved, schedule independent of contents; the weave loops are summarised in closed
+form over a symbolic length 2m+rho and the two functions are shown to be total, mutually inverse permutations of
+positions (c10_weave.py).
 """
 import ast
 
@@ -16,18 +16,22 @@ from ..affine import Aff
 from ..core import AnalysisError
 from ..index import walk_no_nested
 from ..numeval import NumEval, PyRaise
+from . import c10_runs
 
 MOD = "eolib.encrypt.encryption_utils"
 
 
 def run(rep, index):
-    rep.level = "other"
+    rep.level = "proof"
     rep.explanation = ("flip_msb: per-element transfer by abstract interpretation (bit operations as div/mod identities), "
                        "involution and fixed points proved for all 256 values. swap_multiples: early exits precede every "
-                       "mutation (path rule) and every mutation is a two-index swap (structural rule) => length and "
-                       "multiset preserved. interleave/deinterleave: output length = input length and the index schedule "
-                       "never reads the contents; mutual inverseness by closed-form summarisation of the weave loops. "
-                       "NOT decided: swap_multiples being an involution that fixes non-multiples.")
+                       "mutation (path rule); one generic iteration of the scanning loop is interpreted over a symbolic store "
+                       "with the run-counter hypothesis, obligations R0-R5 (inductive counter, stores inside the scanned run of "
+                       "multiples, per-iteration effect = disjoint transpositions or an exact slice reversal, indices in bounds, "
+                       "element-local multiple test) imply by the theorem in DESIGN.md that length, multiset and non-multiples "
+                       "are kept and that the function is an involution. interleave/deinterleave: output length = input length, "
+                       "the index schedule never reads the contents, mutual inverseness by closed-form summarisation of the "
+                       "weave loops.")
     m = index.module(MOD)
     for fn in ("interleave", "deinterleave", "flip_msb", "swap_multiples"):
         if fn not in m.functions:
@@ -35,8 +39,6 @@ def run(rep, index):
     flip_msb(rep, index, m)
     swap_multiples(rep, index, m)
     weave(rep, index, m)
-    rep.undecided.append("swap_multiples with a positive multiple is an involution and leaves every non-multiple in "
-                         "place: needs a loop invariant over maximal runs; out of reach of this analysis")
     rep.assumptions.append("buffer elements are integers in [0,255]")
 
 
@@ -134,11 +136,9 @@ def swap_multiples(rep, index, m):
         if node in covered:
             rep.ob("C10.S3 mutation-is-a-swap", "swap_multiples store at line %d" % node.lineno, True,
                    "part of a two-index swap (length and multiset preserved)", loc=index.loc(m, node))
-        else:
-            raise AnalysisError("swap_multiples mutates its buffer through an idiom this rule does not know "
-                                "(%s at line %d); length/multiset preservation cannot be decided"
-                                % (ast.unparse(node)[:60], node.lineno))
-    rep.floor("swap_multiples mutation sites", 2)
+        # any other store form is left to the run clause (symbolic store, slice copies), which fails closed
+    rep.floor("swap_multiples mutation sites", 1)
+    c10_runs.run_clause(rep, index, m)
 
 
 def _mutations(fn, buf):
